@@ -48,6 +48,9 @@ func c17(tier string) []*explore.Scenario {
 	}
 	// the same failures with a proxy that was given no disconnect callback
 	out = append(out, withoutDisconnectCallback(pickScenarios(out, "bad-peer/dial-error", "bad-peer/failing-writer", "bad-peer/failing-reader", "dead-on-attach/traffic=1", "reattach/after-old-fails", "opseq/")...)...)
+	for _, kind := range []string{"stuck-writer-then-failing-reader", "both-while-forwarder-busy"} {
+		out = append(out, c17DoubleFault("C17", kind, 2))
+	}
 	return out
 }
 
@@ -1058,4 +1061,109 @@ func c17ReattachRacesTraffic(prop string, n, bound int) *explore.Scenario {
 			}
 		},
 	}
+}
+
+// c17DoubleFault: two failures on the same proxy connection (to the dialled peer c).
+//
+//	stuck-writer-then-failing-reader: the proxy's Write to c is stuck inside the transport (it does
+//	    not see its context end); then c's Read fails.
+//	both-while-forwarder-busy: the forwarding loop is parked in the user's address-rewriting
+//	    callback when c's Write fails and, before that report could be taken, c's Read fails too.
+//
+// The failed connection is reported, removed (the next envelope for c makes the proxy dial
+// again and arrives) and traffic between the healthy peers a and b is untouched.
+func c17DoubleFault(prop, kind string, bound int) *explore.Scenario {
+	fam := prop + "/double-fault"
+	return &explore.Scenario{
+		Name: prop + "/double-fault/" + kind, Family: fam, Prop: prop, Bound: bound,
+		Run: func() {
+			gate := make(chan struct{})
+			parked := false
+			var ic func(h *goatorepo.RequestHeader) error
+			if kind == "both-while-forwarder-busy" {
+				ic = func(h *goatorepo.RequestHeader) error {
+					if h.Method == "/gate/Park" {
+						parked = true
+						<-gate
+						parked = false
+					}
+					return nil
+				}
+			}
+			t := env.NewProxyTopo(nil, env.ProxyOpts{Cap: 4, NoServer: true, Intercept: ic})
+			peers := map[string]*env.Pipe{}
+			for _, n := range []string{"a", "b"} {
+				p := env.NewPipe(t.Tap, env.PipeOpts{Name: n, Cap: 4})
+				peers[n] = p
+				t.Proxy.AddClient(n, p.B)
+			}
+			pc := env.NewPipe(t.Tap, env.PipeOpts{Name: "c", Cap: 0})
+			t.Extra["c"] = pc
+			vsched.Settle()
+			vsched.Explore(true)
+			switch kind {
+			case "stuck-writer-then-failing-reader":
+				pc.A.HoldIf = func(k int, rpc *env.Rpc) bool { return true }
+				peers["a"].A.Inject(c17Msg(10, "a", "c")) // dials c; the write of 10 is stuck in the transport
+				vsched.Quiesce()
+				if pc.A.Holding != 1 {
+					vsched.Fail(fam+"|harness", "the write to c is not stuck")
+					return
+				}
+				pc.A.FailReads()
+				vsched.Quiesce()
+			case "both-while-forwarder-busy":
+				peers["a"].A.Inject(c17Msg(10, "a", "c")) // dials c; nobody reads c: the write blocks
+				vsched.Quiesce()
+				park := c17Msg(11, "a", "b")
+				park.Header.Method = "/gate/Park"
+				peers["a"].A.Inject(park)
+				vsched.Quiesce()
+				if !parked {
+					vsched.Fail(fam+"|harness", "the forwarding loop is not parked in the callback")
+					return
+				}
+				pc.A.Break() // c's connection dies: its pending Write and its Read both fail
+				pc.B.Break()
+				vsched.Quiesce()
+				close(gate)
+				vsched.Quiesce()
+			}
+			// the name is used again
+			pc2 := env.NewPipe(t.Tap, env.PipeOpts{Name: "c2", Cap: 4})
+			t.Extra["c"] = pc2
+			dialsBefore := countStr(t.Dialed, "c")
+			peers["a"].A.Inject(c17Msg(20, "a", "c"))
+			peers["a"].A.Inject(c17Msg(21, "a", "b"))
+			vsched.Quiesce()
+			vsched.Obs("%s: dialed=%v disconnects=%v 20->c2=%d 21->b=%d", kind, t.Dialed, t.Disconnects, onWire(t, "c2", 20), delivered(t, "b", 21))
+			if t.HasCallback && countStr(t.Disconnects, "c") < 1 {
+				vsched.Fail(fam+"|no-disconnect-report", "%s: c's connection failed twice over but the disconnect callback was never called for it (%v)", kind, t.Disconnects)
+			}
+			if countStr(t.Dialed, "c") != dialsBefore+1 || onWire(t, "c2", 20) != 1 {
+				vsched.Fail(fam+"|failed-connection-not-removed", "%s: a later envelope for c did not lead to a new dial and delivery (dials %v, delivered to the new connection %d times)", kind, t.Dialed, onWire(t, "c2", 20))
+			}
+			if delivered(t, "b", 21) != 1 {
+				vsched.Fail(fam+"|healthy-traffic-delayed", "%s: envelope 21 a->b was delivered %d times", kind, delivered(t, "b", 21))
+			}
+			for _, x := range t.Disconnects {
+				if x == "a" || x == "b" {
+					vsched.Fail(fam+"|healthy-reported", "%s: healthy peer %s was reported disconnected", kind, x)
+				}
+			}
+			pc.A.ReleaseHeld(true)
+		},
+	}
+}
+
+// onWire: how often envelope id was written on the named pipe, in either direction (a dialled
+// peer's pipe has the proxy on its A side, an attached peer's on its B side).
+func onWire(t *env.ProxyTopo, wire string, id uint64) int {
+	n := 0
+	for _, e := range t.Tap.Events {
+		if e.Wire == wire && e.Rpc.GetId() == id {
+			n++
+		}
+	}
+	return n
 }
